@@ -31,9 +31,13 @@ func (i *interpreter) callIntrinsic(fr *frame, fn *ssa.Function, args []value) (
 			}
 			panic(unsupported{"unknown harness API " + name})
 		}
-		if in, ok := i.eng.intr[name]; ok { // explicit repo-level stub
-			i.intrSeen[name] = true
-			return in(fr, args), true
+		if in, ok := i.eng.repoStubs[name]; ok { // library-level stub, only when switched on
+			short := name[len(i.eng.ModPath)+1:]
+			short = strings.TrimPrefix(short, "internal/")
+			if i.ps.env().stubsOn[short] {
+				i.intrSeen["stub:"+name] = true
+				return in(fr, args), true
+			}
 		}
 		return nil, false
 	}
